@@ -1333,13 +1333,15 @@ func runGraph(in *govGraph, shard, nshards int, res *verifkit.Result, rep *repor
 				opName := "NextBlock"
 				boundary := false
 				if step.Op < 0 {
+					step.Restart = (pi+si)%2 == 1 // a node restart at every other block boundary (invisible in the model)
 					root, err := s.nextBlock(hm.block(dst.H), step.Restart)
 					if err != nil {
 						rep.violate(map[string]interface{}{"kind": "exec-error", "op": "NextBlock"}, s.replay("graph "+in.Name, nil, ""), "block boundary: %v", err)
 						return
 					}
 					boundary = true
-					hk := w.layout + hm.name + "|" + strings.Join(s.hist[:len(s.hist)-1], ";")
+					// (restarts are not part of the key: a restart must not change the state)
+					hk := w.layout + hm.name + "|" + strings.NewReplacer(" restart=true", "", " restart=false", "").Replace(strings.Join(s.hist[:len(s.hist)-1], ";"))
 					hs := sha256.Sum256([]byte(hk))
 					hkey := hex.EncodeToString(hs[:])
 					if prev, ok := roots[hkey]; ok && prev != hex.EncodeToString(root) {
